@@ -1,261 +1,367 @@
-(** Proofs about Model/Term.v: who owns the terminal (C07). *)
+(** Proofs about Model/Term.v: who owns the terminal, the shell's signal mask,
+    process groups (C07). *)
 From Coq Require Import ZArith List Bool Arith Lia.
 From Cicada Require Import Model.Jobs Model.Term.
 Import ListNotations.
 Local Open Scope Z_scope.
 
-(** ---------- the ownership invariant *)
+(** ---------- what never changes in a process: pid, group, inherited mask *)
+Definition stat (p : proc) : Z * Z * bool := (ppid p, ppgid p, pblk p).
+Definition pg (p : proc) : Z * Z := (ppid p, ppgid p).
+Definition groups (s : st) : list (Z * Z) := map pg (procs (k s)).
+Definition clean (ps : list proc) : Prop := Forall (fun p => pblk p = false) ps.
+
+Lemma stat_pg ps ps' : map stat ps' = map stat ps -> map pg ps' = map pg ps.
+Proof.
+  intro H. assert (E : forall l, map pg l = map (fun t => (fst (fst t), snd (fst t))) (map stat l)).
+  { intro l. rewrite map_map. apply map_ext. intro p. reflexivity. }
+  rewrite (E ps'), (E ps), H. reflexivity.
+Qed.
+
+Lemma stat_clean ps ps' : map stat ps' = map stat ps -> clean ps -> clean ps'.
+Proof.
+  unfold clean. revert ps'. induction ps as [|p r IH]; intros ps' H C; destruct ps' as [|p' r']; try discriminate; auto.
+  cbn in H. inversion H. inversion C; subst. constructor; auto. unfold stat in *. congruence.
+Qed.
+
+Lemma deliver_stat sig p : stat (deliver sig p) = stat p.
+Proof.
+  unfold deliver, stat. destruct (pblk p && (sig =? SIGTSTP)); auto. destruct (pst p); auto.
+  - destruct (is_stop_sig sig); auto. destruct (sig =? SIGCONT); auto.
+  - destruct (sig =? SIGKILL); auto. destruct (sig =? SIGCONT).
+    + destruct (ppend p); auto.
+    + destruct (is_stop_sig sig); auto. destruct (ppend p); auto.
+Qed.
+
+Lemma do_exit_stat n p : stat (do_exit n p) = stat p.
+Proof. unfold do_exit, stat. destruct (pst p); auto. destruct (ppend p); auto. Qed.
+
+Lemma on_pid_stat f pid ps : (forall p, stat (f p) = stat p) -> map stat (on_pid f pid ps) = map stat ps.
+Proof.
+  intro F. unfold on_pid. rewrite map_map. apply map_ext. intro p. destruct (ppid p =? pid); auto.
+Qed.
+
+Lemma on_group_stat f g ps : (forall p, stat (f p) = stat p) -> map stat (on_group f g ps) = map stat ps.
+Proof.
+  intro F. unfold on_group. rewrite map_map. apply map_ext. intro p. destruct (ppgid p =? g); auto.
+Qed.
+
+Lemma next_status_stat ps : forall e ps', next_status ps = Some (e, ps') -> map stat ps' = map stat ps.
+Proof.
+  induction ps as [|p r IH]; intros e ps' H; cbn in H; [discriminate|].
+  assert (SK : match next_status r with Some (e0, r') => Some (e0, p :: r') | None => None end = Some (e, ps')
+               -> map stat ps' = map stat (p :: r)).
+  { destruct (next_status r) as [[e0 r']|]; [|discriminate]. intro Q. inversion Q; subst.
+    cbn. f_equal. eapply IH; eauto. }
+  destruct (pst p).
+  - destruct (pnote p); auto. inversion H; subst. reflexivity.
+  - destruct (pnote p); auto. inversion H; subst. reflexivity.
+  - inversion H; subst. reflexivity.
+  - auto.
+Qed.
+
+Lemma wait_body_procs k0 g pids w e : procs (fst (wait_body k0 g pids w e)) = procs k0.
+Proof. unfold wait_body. destruct (wait_one (shl k0) g pids w e). reflexivity. Qed.
+
+Lemma drain_stat fuel : forall ps, map stat (snd (drain fuel ps)) = map stat ps.
+Proof.
+  induction fuel as [|f IH]; intro ps; cbn [drain]; auto.
+  destruct (next_status ps) as [[e ps']|] eqn:N; auto.
+  specialize (IH ps'). destruct (drain f ps') as [q ps'']. cbn in *. rewrite IH.
+  eapply next_status_stat; eauto.
+Qed.
+
+Lemma poll_stat r k0 : map stat (procs (poll r k0)) = map stat (procs k0).
+Proof.
+  unfold poll, poll_evs. destruct (ctab k0); [reflexivity|].
+  pose proof (drain_stat (S (length (procs k0))) (procs k0)) as D.
+  destruct (drain (S (length (procs k0))) (procs k0)) as [q ps]. exact D.
+Qed.
+
+(** ---------- give_terminal_to: the mask afterwards is the mask before, whatever tcsetpgrp returned *)
+Lemma give_eq ok gid ow m : give_terminal_to ok gid ow m = (ok, if ok then gid else ow, m).
+Proof. reflexivity. Qed.
+
+Theorem give_terminal_to_mask : forall ok gid ow m, snd (give_terminal_to ok gid ow m) = m.
+Proof. reflexivity. Qed.
+
+(** ---------- the combined invariant: owner, mask, processes start with the initial mask *)
+Definition tty (c : cfg) : bool := c_hasterm c && c_isatty c.
+
 Definition winv (c : cfg) (gid : Z) (v : via) (ow : Z) : Prop :=
   match v with
-  | VLaunch tg => if tg then ow = gid else ow = c_sh c
+  | VLaunch tg => (if tg then ow = gid else ow = c_sh c) /\ (tty c = true -> tg = true)
   | VFg => ow = gid
   end.
 
-Definition Inv (c : cfg) (s : st) : Prop :=
+Definition Good (c : cfg) (s : st) : Prop :=
+  smask s = false /\ clean (procs (k s)) /\
   match md s with
-  | AtPrompt => owner s = c_sh c
-  | Waiting g _ _ v => winv c g v (owner s)
+  | AtPrompt | Between _ => owner s = c_sh c
+  | Waiting g _ _ v _ => winv c g v (owner s)
   end.
 
-Lemma finish_inv c k0 g v ow h : winv c g v ow -> Inv c (finish c k0 v ow h).
+Lemma next_good c k0 ow g rest : ow = c_sh c -> clean (procs k0) -> Good c (next k0 ow false g rest).
+Proof. intros; unfold Good, next; cbn; auto. Qed.
+
+Lemma eol_good c k0 ow g : ow = c_sh c -> clean (procs k0) -> Good c (end_of_line k0 ow false g).
 Proof.
-  unfold Inv, finish, end_of_line, winv; cbn. destruct v as [tg|]; [destruct tg|]; auto.
+  intros O C. unfold Good, end_of_line; cbn. repeat split; auto.
+  eapply stat_clean; [apply poll_stat | exact C].
 Qed.
 
-Lemma settle_inv c fuel : forall s, Inv c s -> Inv c (settle c fuel s).
+Lemma finish_good c k0 g v ow h rest : winv c g v ow -> clean (procs k0) -> Good c (finish c k0 v ow false h rest).
 Proof.
-  induction fuel as [|f IH]; intros s H; cbn [settle]; auto.
-  destruct (md s) as [|g pids w v] eqn:M; auto.
-  assert (W : winv c g v (owner s)) by (unfold Inv in H; rewrite M in H; exact H).
-  destruct (next_status (procs (k s))) as [[e ps]|].
-  - destruct (wait_body (set_procs (k s) ps) g pids w e) as [k' w'].
-    destruct (negb (is_cont e) && (length pids <=? length w')%nat).
-    + eapply finish_inv; eauto.
-    + apply IH. unfold Inv; cbn. exact W.
-  - destruct (all_gone (procs (k s))); [eapply finish_inv; eauto | exact H].
+  intros W C. unfold finish. destruct v as [tg|]; [destruct tg|]; cbn.
+  - apply next_good; auto.
+  - apply next_good; auto. destruct W as [W _]. exact W.
+  - apply next_good; auto.
 Qed.
 
-Lemma enter_wait_inv c k0 g pids v ow h : winv c g v ow -> Inv c (enter_wait c k0 g pids v ow h).
-Proof.
-  intro W. unfold enter_wait. destruct pids.
-  - eapply finish_inv; eauto.
-  - apply settle_inv. unfold Inv; cbn. exact W.
-Qed.
-
-Lemma end_of_line_inv c k0 ow h : ow = c_sh c -> Inv c (end_of_line k0 ow h).
-Proof. intro; unfold Inv, end_of_line; cbn; auto. Qed.
-
-Lemma launch_inv c s pids bg :
-  md s = AtPrompt -> Inv c s -> Inv c (launch c s pids bg).
-Proof.
-  intros M H. assert (O : owner s = c_sh c) by (unfold Inv in H; rewrite M in H; exact H).
-  unfold launch. destruct pids as [|p0 rest]; auto.
-  destruct bg.
-  - apply end_of_line_inv. cbn [negb]. rewrite andb_false_r. cbn. exact O.
-  - apply enter_wait_inv. unfold winv.
-    match goal with |- context [if ?b then _ else _] => destruct b end; auto.
-Qed.
-
-Lemma do_fg_inv c s arg pick : md s = AtPrompt -> Inv c s -> Inv c (do_fg c s arg pick).
-Proof.
-  intros M H. assert (O : owner s = c_sh c) by (unfold Inv in H; rewrite M in H; exact H).
-  unfold do_fg. destruct (ctab (quiet (k s))); [apply end_of_line_inv; auto|].
-  destruct (find_job _ arg pick) as [j0|]; [|apply end_of_line_inv; auto].
-  match goal with |- context [if ?b then _ else _] => destruct b end.
-  - apply enter_wait_inv. reflexivity.
-  - apply end_of_line_inv; auto.
-Qed.
-
-Lemma do_bg_inv c s arg pick : md s = AtPrompt -> Inv c s -> Inv c (do_bg s arg pick).
-Proof.
-  intros M H. assert (O : owner s = c_sh c) by (unfold Inv in H; rewrite M in H; exact H).
-  unfold do_bg. destruct (ctab (quiet (k s))); [apply end_of_line_inv; auto|].
-  destruct (find_job _ arg pick) as [j0|]; [|apply end_of_line_inv; auto].
-  destruct (jst j0); apply end_of_line_inv; auto.
-Qed.
-
-Lemma do_jobs_inv c s : md s = AtPrompt -> Inv c s -> Inv c (do_jobs s).
-Proof.
-  intros M H. assert (O : owner s = c_sh c) by (unfold Inv in H; rewrite M in H; exact H).
-  unfold do_jobs. destruct (ctab (quiet (k s))); apply end_of_line_inv; auto.
-Qed.
-
-Lemma clear_inv c s : Inv c s -> Inv c (clear s).
-Proof. unfold Inv, clear; cbn; auto. Qed.
-
-Lemma kernel_inv c s f : Inv c s -> Inv c (kernel c s f).
-Proof. intro H. unfold kernel, settle_all. apply settle_inv. unfold Inv in *; cbn; exact H. Qed.
-
-Lemma typed_inv c s f :
-  (md s = AtPrompt -> Inv c s -> Inv c (f s)) -> Inv c s -> Inv c (typed s f).
-Proof.
-  intros Hf H. unfold typed. destruct (md s) eqn:M; [apply Hf; auto | apply clear_inv; auto].
-Qed.
-
-Lemma step_inv c s a : Inv c s -> Inv c (step c s a).
-Proof.
-  intro H. destruct a; cbn [step].
-  - apply typed_inv; auto. intros; apply launch_inv; auto.
-  - apply typed_inv; auto. intros; apply do_fg_inv; auto.
-  - apply typed_inv; auto. intros; apply do_bg_inv; auto.
-  - apply typed_inv; auto. intros; apply do_jobs_inv; auto.
-  - apply typed_inv; auto. intros M H0. apply end_of_line_inv. unfold Inv in H0; rewrite M in H0; exact H0.
-  - apply typed_inv; auto. intros M H0. apply end_of_line_inv. unfold Inv in H0; rewrite M in H0; exact H0.
-  - unfold key. destruct (md s); [apply clear_inv | apply kernel_inv]; auto.
-  - unfold key. destruct (md s); [apply clear_inv | apply kernel_inv]; auto.
-  - apply kernel_inv; auto.
-  - apply kernel_inv; auto.
-Qed.
-
-Lemma fold_inv c acts : forall s, Inv c s -> Inv c (fold_left (step c) acts s).
-Proof. induction acts as [|a r IH]; intros s H; cbn; auto. apply IH, step_inv, H. Qed.
-
-Lemma init_inv c : Inv c (init c).
-Proof. unfold Inv, init; cbn; auto. Qed.
-
-Lemma run_inv c acts : Inv c (run c acts).
-Proof. apply fold_inv, init_inv. Qed.
-
-(** at every prompt the terminal belongs to the shell: all schedules, all actions *)
-Theorem prompt_owner c acts : md (run c acts) = AtPrompt -> owner (run c acts) = c_sh c.
-Proof. intro M. pose proof (run_inv c acts) as H. unfold Inv in H. rewrite M in H. exact H. Qed.
-
-(** the owner is the shell or the job being waited for: nobody else, ever *)
-Theorem owner_cases c acts :
-  owner (run c acts) = c_sh c \/
-  exists pids w v, md (run c acts) = Waiting (owner (run c acts)) pids w v.
-Proof.
-  pose proof (run_inv c acts) as H. unfold Inv in H.
-  destruct (md (run c acts)) as [|g pids w v] eqn:M; auto.
-  destruct v as [tg|]; cbn in H; [destruct tg|]; subst; eauto.
-Qed.
-
-(** ---------- while waiting on J the owner is gid J, when tcsetpgrp at launch succeeds *)
-Definition tty (c : cfg) : bool := c_hasterm c && c_isatty c.
-
-Definition Given (s : st) : Prop :=
-  match md s with Waiting _ _ _ (VLaunch tg) => tg = true | _ => True end.
-
-Lemma finish_given c k0 v ow h : Given (finish c k0 v ow h).
-Proof. unfold Given, finish, end_of_line; cbn; auto. Qed.
-
-Lemma settle_given c fuel : forall s, Given s -> Given (settle c fuel s).
+Lemma settle_good c fuel : forall s, Good c s -> Good c (settle c fuel s).
 Proof.
   induction fuel as [|f IH]; intros s H; cbn [settle]; auto.
-  destruct (md s) as [|g pids w v] eqn:M; auto.
-  destruct (next_status (procs (k s))) as [[e ps]|].
-  - destruct (wait_body (set_procs (k s) ps) g pids w e) as [k' w'].
+  destruct (md s) as [| |g pids w v rest] eqn:M; auto.
+  destruct H as [HM [HC HW]]. rewrite M in HW. rewrite HM.
+  destruct (next_status (procs (k s))) as [[e ps]|] eqn:N.
+  - pose proof (wait_body_procs (set_procs (k s) ps) g pids w e) as WB.
+    destruct (wait_body (set_procs (k s) ps) g pids w e) as [k' w']. cbn in WB.
+    assert (C' : clean (procs k')).
+    { rewrite WB. eapply stat_clean; [eapply next_status_stat; eauto | exact HC]. }
     destruct (negb (is_cont e) && (length pids <=? length w')%nat).
-    + apply finish_given.
-    + apply IH. unfold Given in *; cbn. rewrite M in H. exact H.
-  - destruct (all_gone (procs (k s))); [apply finish_given | unfold Given; rewrite M; unfold Given in H; rewrite M in H; exact H].
+    + eapply finish_good; eauto.
+    + apply IH. unfold Good; cbn. auto.
+  - destruct (all_gone (procs (k s))).
+    + eapply finish_good; eauto.
+    + unfold Good. rewrite M. auto.
 Qed.
 
-Lemma enter_wait_given c k0 g pids v ow h :
-  match v with VLaunch tg => tg = true | VFg => True end -> Given (enter_wait c k0 g pids v ow h).
+Lemma enter_wait_good c k0 g pids v ow h rest :
+  winv c g v ow -> clean (procs k0) -> Good c (enter_wait c k0 g pids v ow false h rest).
 Proof.
-  intro W. unfold enter_wait. destruct pids; [apply finish_given|].
-  apply settle_given. unfold Given; cbn. exact W.
+  intros W C. unfold enter_wait. destruct pids.
+  - eapply finish_good; eauto.
+  - apply settle_good. unfold Good; cbn. auto.
 Qed.
 
-Lemma eol_given k0 ow h : Given (end_of_line k0 ow h).
-Proof. unfold Given, end_of_line; cbn; auto. Qed.
+(** a command starts with the shell owning the terminal, the initial mask, clean processes *)
+Definition Pre (c : cfg) (s : st) : Prop := smask s = false /\ clean (procs (k s)) /\ owner s = c_sh c.
 
-Lemma group_exists_launch p0 rest ps : group_exists p0 (ps ++ stages p0 (p0 :: rest)) = true.
+Lemma group_exists_launch p0 rest m ps : group_exists p0 (ps ++ stages p0 m (p0 :: rest)) = true.
 Proof.
   unfold group_exists. rewrite existsb_app. apply orb_true_iff. right.
   cbn. rewrite Z.eqb_refl. reflexivity.
 Qed.
 
-Lemma step_given c s a : tty c = true -> Given s -> Given (step c s a).
+Lemma stages_clean p0 pids : clean (stages p0 false pids).
+Proof. unfold clean, stages. apply Forall_forall. intros p I. apply in_map_iff in I as [x [E _]]. subst p. reflexivity. Qed.
+
+Lemma launch_good c s pids bg rest : Pre c s -> Good c (launch c s pids bg rest).
 Proof.
-  intros T H.
-  assert (CL : Given (clear s)) by (unfold Given, clear in *; cbn; exact H).
-  assert (KN : forall f, Given (kernel c s f)).
-  { intro f. unfold kernel, settle_all. apply settle_given. unfold Given in *; cbn; exact H. }
-  destruct a; cbn [step]; unfold typed, key; destruct (md s) eqn:M; auto; try apply eol_given.
-  - unfold launch. destruct pids as [|p0 rest]; [unfold Given; rewrite M; auto|].
-    destruct bg; [apply eol_given|]. apply enter_wait_given.
-    unfold tty in T. rewrite T, group_exists_launch. reflexivity.
-  - unfold do_fg. destruct (ctab (quiet (k s))); [apply eol_given|].
-    destruct (find_job _ arg pick); [|apply eol_given].
-    match goal with |- context [if ?b then _ else _] => destruct b end;
-      [apply enter_wait_given; auto | apply eol_given].
-  - unfold do_bg. destruct (ctab (quiet (k s))); [apply eol_given|].
-    destruct (find_job _ arg pick) as [j0|]; [|apply eol_given]. destruct (jst j0); apply eol_given.
-  - unfold do_jobs. destruct (ctab (quiet (k s))); apply eol_given.
+  intros [HM [HC HO]]. unfold launch. destruct pids as [|p0 r]; [rewrite HM; apply next_good; auto|].
+  rewrite HM.
+  assert (C2 : clean (procs (k s) ++ stages p0 false (p0 :: r))) by (apply Forall_app; split; [exact HC | apply stages_clean]).
+  rewrite group_exists_launch, give_eq.
+  destruct (c_hasterm c && c_isatty c && negb bg) eqn:G.
+  - destruct bg; [rewrite andb_false_r in G; discriminate|].
+    apply enter_wait_good; auto. split; auto.
+  - destruct bg.
+    + apply next_good; auto.
+    + apply enter_wait_good; auto. split; auto. intro T. unfold tty in T. rewrite T in G. discriminate.
 Qed.
 
-Lemma fold_given c acts : tty c = true ->
-  forall s, Given s -> Given (fold_left (step c) acts s).
+Lemma on_group_clean f g ps : (forall p, stat (f p) = stat p) -> clean ps -> clean (on_group f g ps).
+Proof. intros F C. eapply stat_clean; [apply on_group_stat; exact F | exact C]. Qed.
+
+Lemma do_fg_good c s arg pick rest : Pre c s -> Good c (do_fg c s arg pick rest).
 Proof.
-  intros T. induction acts as [|a r IH]; intros s H; cbn; auto.
-  apply IH; auto. apply step_given; auto.
+  intros [HM [HC HO]]. unfold do_fg. rewrite HM.
+  destruct (ctab (k s)); [apply next_good; auto|].
+  destruct (find_job _ arg pick) as [j0|]; [|apply next_good; auto].
+  rewrite give_eq. destruct (group_exists (jgid j0) (procs (say (k s) [OFgCmd (jid j0)]))).
+  - apply enter_wait_good; [reflexivity|]. cbn. apply on_group_clean; auto. apply deliver_stat.
+  - apply next_good; auto.
 Qed.
 
-Theorem wait_owner c acts g pids w v :
-  tty c = true ->
-  md (run c acts) = Waiting g pids w v -> owner (run c acts) = g.
+Lemma do_bg_good c s arg pick rest : Pre c s -> Good c (do_bg s arg pick rest).
 Proof.
-  intros T M.
-  pose proof (run_inv c acts) as H. unfold Inv in H. rewrite M in H.
-  assert (G : Given (run c acts)).
-  { apply fold_given; auto. unfold Given, init; cbn; auto. }
-  unfold Given in G. rewrite M in G. destruct v as [tg|]; cbn in H; auto. subst tg. exact H.
+  intros [HM [HC HO]]. unfold do_bg. rewrite HM.
+  destruct (ctab (k s)); [apply next_good; auto|].
+  destruct (find_job _ arg pick) as [j0|]; [|apply next_good; auto].
+  destruct (jst j0); apply next_good; auto; cbn; apply on_group_clean; auto; apply deliver_stat.
+Qed.
+
+Lemma do_jobs_good c s rest : Pre c s -> Good c (do_jobs s rest).
+Proof.
+  intros [HM [HC HO]]. unfold do_jobs. rewrite HM.
+  destruct (ctab (k s)); apply next_good; auto.
+  cbn. eapply stat_clean; [apply poll_stat | exact HC].
+Qed.
+
+Lemma exec_good c s x rest : Pre c s -> Good c (exec c s x rest).
+Proof.
+  intro P. destruct x; cbn [exec].
+  - apply launch_good; auto.
+  - apply do_fg_good; auto.
+  - apply do_bg_good; auto.
+  - apply do_jobs_good; auto.
+  - destruct P as [HM [HC HO]]. rewrite HM. apply next_good; auto.
+Qed.
+
+Lemma drive_good c fuel : forall s, Good c s -> Good c (drive c fuel s).
+Proof.
+  induction fuel as [|f IH]; intros s H; cbn [drive]; auto.
+  destruct (md s) as [|[|x r]| ] eqn:M; auto.
+  - destruct H as [HM [HC HO]]. rewrite M in HO. rewrite HM. apply eol_good; auto.
+  - apply IH. apply exec_good. destruct H as [HM [HC HO]]. rewrite M in HO. repeat split; auto.
+Qed.
+
+Lemma kernel_good c s f : (forall ps, map stat (f ps) = map stat ps) -> Good c s -> Good c (kernel c s f).
+Proof.
+  intros F [HM [HC HW]]. unfold kernel, drive_all, settle_all. apply drive_good, settle_good.
+  unfold Good; cbn. repeat split; auto. eapply stat_clean; [apply F | exact HC].
+Qed.
+
+Lemma clear_good c s : Good c s -> Good c (clear s).
+Proof. intro H. exact H. Qed.
+
+Lemma typed_line_good c s l : Good c s -> Good c (typed_line c s l).
+Proof.
+  intro H. unfold typed_line. destruct (md s) eqn:M; try (apply clear_good; exact H).
+  unfold drive_all. apply drive_good. destruct H as [HM [HC HO]]. rewrite M in HO.
+  unfold Good; cbn. auto.
+Qed.
+
+Lemma key_good c s sig : Good c s -> Good c (key c s sig).
+Proof.
+  intro H. unfold key. destruct (md s); [apply clear_good; auto| |];
+    (apply kernel_good; auto; intro; apply on_group_stat; apply deliver_stat).
+Qed.
+
+Lemma step_good c s a : Good c s -> Good c (step c s a).
+Proof.
+  intro H. unfold step. destruct (cmds_of a) as [l|] eqn:CM; [apply typed_line_good; auto|].
+  destruct a; try discriminate CM; auto.
+  - apply key_good; auto.
+  - apply key_good; auto.
+  - apply kernel_good; auto. intro. apply on_pid_stat. apply do_exit_stat.
+  - apply kernel_good; auto. intro. apply on_pid_stat. apply deliver_stat.
+Qed.
+
+Lemma fold_good c acts : forall s, Good c s -> Good c (fold_left (step c) acts s).
+Proof. induction acts as [|a r IH]; intros s H; cbn; auto. apply IH, step_good, H. Qed.
+
+Lemma run_good c acts : Good c (run c acts).
+Proof. apply fold_good. unfold Good, init; cbn. repeat split; auto. constructor. Qed.
+
+(** at every prompt the terminal belongs to the shell: all action lists, all configurations *)
+Theorem prompt_owner c acts : md (run c acts) = AtPrompt -> owner (run c acts) = c_sh c.
+Proof. intro M. destruct (run_good c acts) as [_ [_ H]]. rewrite M in H. exact H. Qed.
+
+(** the shell's signal mask is the initial one in every state, in particular at
+    every prompt; every process started with the initial mask *)
+Theorem mask_initial c acts :
+  smask (run c acts) = false /\ Forall (fun p => pblk p = false) (procs (k (run c acts))).
+Proof. destruct (run_good c acts) as [A [B _]]. auto. Qed.
+
+(** the owner is the shell or the job being waited for: nobody else, ever *)
+Theorem owner_cases c acts :
+  owner (run c acts) = c_sh c \/
+  exists pids w v rest, md (run c acts) = Waiting (owner (run c acts)) pids w v rest.
+Proof.
+  destruct (run_good c acts) as [_ [_ H]].
+  destruct (md (run c acts)) as [| |g pids w v rest] eqn:M; auto.
+  destruct v as [tg|]; cbn in H.
+  - destruct H as [H _]. destruct tg; subst; eauto 6.
+  - subst. eauto 6.
+Qed.
+
+(** while the shell waits on job J the owner is gid J *)
+Theorem wait_owner c acts g pids w v rest :
+  tty c = true -> md (run c acts) = Waiting g pids w v rest -> owner (run c acts) = g.
+Proof.
+  intros T M. destruct (run_good c acts) as [_ [_ H]]. rewrite M in H.
+  destruct v as [tg|]; cbn in H; auto. destruct H as [H G]. rewrite (G T) in H. exact H.
 Qed.
 
 (** ---------- a job launched with & is never the owner unless fg names it *)
 Definition wgid (m : mode) : option Z :=
-  match m with AtPrompt => None | Waiting g _ _ _ => Some g end.
+  match m with Waiting g _ _ _ _ => Some g | _ => None end.
 
-Definition NotW (g : Z) (s : st) : Prop := wgid (md s) <> Some g.
+Definition may_fg_cmd (g : Z) (x : cmd) : bool :=
+  match x with
+  | CFg _ _ => true
+  | CLaunch pids _ => hd 0 pids =? g
+  | _ => false
+  end.
 
-Lemma finish_notw c g k0 v ow h : NotW g (finish c k0 v ow h).
-Proof. unfold NotW, finish, end_of_line; cbn; discriminate. Qed.
+(** actions that could put group [g] in the foreground: a line with an fg, or with a launch led by [g] *)
+Definition may_fg (g : Z) (a : action) : bool :=
+  match cmds_of a with Some l => existsb (may_fg_cmd g) l | None => false end.
+
+Definition NotW (g : Z) (s : st) : Prop :=
+  wgid (md s) <> Some g /\ existsb (may_fg_cmd g) (rest_of (md s)) = false.
+
+Lemma next_notw g k0 ow m h rest : existsb (may_fg_cmd g) rest = false -> NotW g (next k0 ow m h rest).
+Proof. intro R. unfold NotW, next; cbn. split; [discriminate | exact R]. Qed.
+
+Lemma finish_notw c g k0 v ow m h rest : existsb (may_fg_cmd g) rest = false -> NotW g (finish c k0 v ow m h rest).
+Proof.
+  intro R. unfold finish. destruct (match v with VFg => true | VLaunch tg => tg end); cbn; apply next_notw; auto.
+Qed.
 
 Lemma settle_notw c g fuel : forall s, NotW g s -> NotW g (settle c fuel s).
 Proof.
   induction fuel as [|f IH]; intros s H; cbn [settle]; auto.
-  destruct (md s) as [|g0 pids w v] eqn:M; auto.
+  destruct (md s) as [| |g0 pids w v rest] eqn:M; auto.
+  destruct H as [H1 H2]. rewrite M in H1, H2. cbn in H1, H2.
   destruct (next_status (procs (k s))) as [[e ps]|].
   - destruct (wait_body (set_procs (k s) ps) g0 pids w e) as [k' w'].
     destruct (negb (is_cont e) && (length pids <=? length w')%nat).
-    + apply finish_notw.
-    + apply IH. unfold NotW in *; cbn. rewrite M in H. exact H.
-  - destruct (all_gone (procs (k s))); [apply finish_notw | exact H].
+    + apply finish_notw; auto.
+    + apply IH. unfold NotW; cbn. auto.
+  - destruct (all_gone (procs (k s))); [apply finish_notw; auto | unfold NotW; rewrite M; cbn; auto].
 Qed.
 
-Lemma enter_wait_notw c g k0 g0 pids v ow h : g0 <> g -> NotW g (enter_wait c k0 g0 pids v ow h).
+Lemma enter_wait_notw c g k0 g0 pids v ow m h rest :
+  g0 <> g -> existsb (may_fg_cmd g) rest = false -> NotW g (enter_wait c k0 g0 pids v ow m h rest).
 Proof.
-  intro N. unfold enter_wait. destruct pids; [apply finish_notw|].
-  apply settle_notw. unfold NotW; cbn. congruence.
+  intros N R. unfold enter_wait. destruct pids; [apply finish_notw; auto|].
+  apply settle_notw. unfold NotW; cbn. split; auto. congruence.
 Qed.
 
-Lemma eol_notw g k0 ow h : NotW g (end_of_line k0 ow h).
-Proof. unfold NotW, end_of_line; cbn; discriminate. Qed.
+Lemma exec_notw c g s x rest :
+  may_fg_cmd g x = false -> existsb (may_fg_cmd g) rest = false -> NotW g (exec c s x rest).
+Proof.
+  intros A R. destruct x; cbn [exec]; try discriminate A.
+  - unfold launch. destruct pids as [|p0 r]; [apply next_notw; auto|].
+    destruct (if c_hasterm c && c_isatty c && negb bg then _ else _) as [[tg ow] m].
+    destruct bg; [apply next_notw; auto|]. apply enter_wait_notw; auto.
+    cbn in A. apply Z.eqb_neq in A. exact A.
+  - unfold do_bg. destruct (ctab (k s)); [apply next_notw; auto|].
+    destruct (find_job _ arg pick) as [j0|]; [|apply next_notw; auto]. destruct (jst j0); apply next_notw; auto.
+  - unfold do_jobs. destruct (ctab (k s)); apply next_notw; auto.
+  - apply next_notw; auto.
+Qed.
 
-(** actions that could put group [g] in the foreground: fg, or a launch led by [g] *)
-Definition may_fg (g : Z) (a : action) : bool :=
-  match a with
-  | AFg _ _ => true
-  | ALaunch pids _ => hd 0 pids =? g
-  | _ => false
-  end.
+Lemma drive_notw c g fuel : forall s, NotW g s -> NotW g (drive c fuel s).
+Proof.
+  induction fuel as [|f IH]; intros s H; cbn [drive]; auto.
+  destruct (md s) as [|[|x r]| ] eqn:M; auto.
+  - unfold NotW, end_of_line; cbn. split; [discriminate | reflexivity].
+  - destruct H as [_ H2]. rewrite M in H2. cbn in H2. apply orb_false_iff in H2 as [A R].
+    apply IH. apply exec_notw; auto.
+Qed.
+
+Lemma kernel_notw c g s f : NotW g s -> NotW g (kernel c s f).
+Proof. intro H. unfold kernel, drive_all, settle_all. apply drive_notw, settle_notw. exact H. Qed.
 
 Lemma step_notw c g s a : may_fg g a = false -> NotW g s -> NotW g (step c s a).
 Proof.
-  intros A H.
-  assert (CL : NotW g (clear s)) by (unfold NotW, clear in *; cbn; exact H).
-  assert (KN : forall f, NotW g (kernel c s f)).
-  { intro f. unfold kernel, settle_all. apply settle_notw. unfold NotW in *; cbn; exact H. }
-  destruct a; cbn [step]; unfold typed, key; destruct (md s) eqn:M; auto; try apply eol_notw;
-    try discriminate A.
-  - unfold launch. destruct pids as [|p0 rest]; [exact H|].
-    destruct bg; [apply eol_notw|]. apply enter_wait_notw.
-    cbn in A. apply Z.eqb_neq in A. exact A.
-  - unfold do_bg. destruct (ctab (quiet (k s))); [apply eol_notw|].
-    destruct (find_job _ arg pick) as [j0|]; [|apply eol_notw]. destruct (jst j0); apply eol_notw.
-  - unfold do_jobs. destruct (ctab (quiet (k s))); apply eol_notw.
+  intros A H. unfold step. unfold may_fg in A. destruct (cmds_of a) as [l|] eqn:CM.
+  - unfold typed_line. destruct (md s) eqn:M; try exact H.
+    unfold drive_all. apply drive_notw. unfold NotW; cbn. split; [discriminate | exact A].
+  - destruct a; try discriminate CM; auto; try (unfold key; destruct (md s); try exact H); apply kernel_notw; exact H.
 Qed.
 
 Lemma fold_notw c g acts : forallb (fun a => negb (may_fg g a)) acts = true ->
@@ -266,9 +372,8 @@ Proof.
   apply negb_true_iff; auto.
 Qed.
 
-Lemma fold_left_app_step c (a b : list action) s :
-  fold_left (step c) (a ++ b) s = fold_left (step c) b (fold_left (step c) a s).
-Proof. apply fold_left_app. Qed.
+Lemma step_at_prompt_line c s l : md s = AtPrompt -> step c s (ALaunch l true) = typed_line c s [CLaunch l true].
+Proof. reflexivity. Qed.
 
 Theorem bg_never_owner c pre pids post :
   hd 0 pids <> c_sh c ->
@@ -282,167 +387,196 @@ Proof.
               = fold_left (step c) post (step c (run c pre) (ALaunch pids true))).
   { unfold run. rewrite fold_left_app. reflexivity. }
   assert (N0 : NotW g (step c (run c pre) (ALaunch pids true))).
-  { cbn [step]. unfold typed. rewrite M. unfold launch.
-    destruct pids as [|p0 rest]; [unfold NotW; rewrite M; cbn; discriminate | apply eol_notw]. }
-  pose proof (fold_notw c g post NF _ N0) as N.
+  { unfold step; cbn [cmds_of]. unfold typed_line. rewrite M. unfold drive_all; cbn [md rest_of length].
+    cbn [drive]. cbn [md]. cbn [exec]. unfold launch. cbn [k owner smask gh md].
+    destruct pids as [|p0 rest].
+    - cbn. unfold NotW, end_of_line; cbn. split; [discriminate | reflexivity].
+    - destruct (if c_hasterm c && c_isatty c && negb true then _ else _) as [[tg ow] m].
+      cbn. unfold NotW, end_of_line; cbn. split; [discriminate | reflexivity]. }
+  pose proof (fold_notw c g post NF _ N0) as [N _].
   rewrite <- E in N.
-  destruct (owner_cases c (pre ++ ALaunch pids true :: post)) as [O|[ps [w [v O]]]].
+  destruct (owner_cases c (pre ++ ALaunch pids true :: post)) as [O|[ps [w [v [rs O]]]]].
   - rewrite O. auto.
   - intro Q. apply N. rewrite O. cbn. rewrite Q. reflexivity.
 Qed.
 
 (** ---------- process groups: fixed at launch, one group per pipeline *)
-Definition pg (p : proc) : Z * Z := (ppid p, ppgid p).
-Definition groups (s : st) : list (Z * Z) := map pg (procs (k s)).
+Definition new_groups (pids : list Z) : list (Z * Z) := map (fun p => (p, hd 0 pids)) pids.
+Definition newg (x : cmd) : list (Z * Z) := match x with CLaunch pids _ => new_groups pids | _ => [] end.
 
-Lemma deliver_pg sig p : pg (deliver sig p) = pg p.
-Proof.
-  unfold deliver, pg. destruct (pst p); auto.
-  - destruct (is_stop_sig sig); auto. destruct (sig =? SIGCONT); auto.
-  - destruct (sig =? SIGKILL); auto. destruct (sig =? SIGCONT).
-    + destruct (ppend p); auto.
-    + destruct (is_stop_sig sig); auto. destruct (ppend p); auto.
-Qed.
+(** [q] = (pid, pgid) comes from a launch among the commands [l]: pid is one of its stages, pgid its first *)
+Definition ledc (l : list cmd) (q : Z * Z) : Prop :=
+  exists pids bg, In (CLaunch pids bg) l /\ In (fst q) pids /\ snd q = hd 0 pids.
 
-Lemma do_exit_pg n p : pg (do_exit n p) = pg p.
-Proof. unfold do_exit, pg. destruct (pst p); auto. destruct (ppend p); auto. Qed.
+Lemma groups_stat s s' : map stat (procs (k s')) = map stat (procs (k s)) -> groups s' = groups s.
+Proof. intro H. unfold groups. apply stat_pg. exact H. Qed.
 
-Lemma on_pid_pg f pid ps : (forall p, pg (f p) = pg p) -> map pg (on_pid f pid ps) = map pg ps.
-Proof.
-  intro F. unfold on_pid. rewrite map_map. apply map_ext. intro p.
-  destruct (ppid p =? pid); auto.
-Qed.
+Lemma next_groups k0 ow m h rest : groups (next k0 ow m h rest) = map pg (procs k0).
+Proof. reflexivity. Qed.
 
-Lemma on_group_pg f g ps : (forall p, pg (f p) = pg p) -> map pg (on_group f g ps) = map pg ps.
-Proof.
-  intro F. unfold on_group. rewrite map_map. apply map_ext. intro p.
-  destruct (ppgid p =? g); auto.
-Qed.
+Lemma finish_groups c k0 v ow m h rest : groups (finish c k0 v ow m h rest) = map pg (procs k0).
+Proof. unfold finish. destruct (match v with VFg => true | VLaunch tg => tg end); reflexivity. Qed.
 
-Lemma next_status_pg ps : forall e ps', next_status ps = Some (e, ps') -> map pg ps' = map pg ps.
-Proof.
-  induction ps as [|p r IH]; intros e ps' H; cbn in H; [discriminate|].
-  assert (SK : match next_status r with Some (e0, r') => Some (e0, p :: r') | None => None end = Some (e, ps')
-               -> map pg ps' = map pg (p :: r)).
-  { destruct (next_status r) as [[e0 r']|]; [|discriminate]. intro Q. inversion Q; subst.
-    cbn. f_equal. eapply IH; eauto. }
-  destruct (pst p).
-  - destruct (pnote p); auto. inversion H; subst. reflexivity.
-  - destruct (pnote p); auto. inversion H; subst. reflexivity.
-  - inversion H; subst. reflexivity.
-  - auto.
-Qed.
+Lemma finish_rest c k0 v ow m h rest : rest_of (md (finish c k0 v ow m h rest)) = rest.
+Proof. unfold finish. destruct (match v with VFg => true | VLaunch tg => tg end); reflexivity. Qed.
 
-Lemma wait_body_procs k0 g pids w e : procs (fst (wait_body k0 g pids w e)) = procs k0.
-Proof. unfold wait_body. destruct (wait_one (shl k0) g pids w e). reflexivity. Qed.
-
-Lemma drain_pg fuel : forall ps, map pg (snd (drain fuel ps)) = map pg ps.
-Proof.
-  induction fuel as [|f IH]; intro ps; cbn [drain]; auto.
-  destruct (next_status ps) as [[e ps']|] eqn:N; auto.
-  specialize (IH ps'). destruct (drain f ps') as [q ps'']. cbn in *. rewrite IH.
-  eapply next_status_pg; eauto.
-Qed.
-
-Lemma poll_pg r k0 : map pg (procs (poll r k0)) = map pg (procs k0).
-Proof.
-  unfold poll, poll_evs. destruct (ctab k0); [reflexivity|].
-  pose proof (drain_pg (S (length (procs k0))) (procs k0)) as D.
-  destruct (drain (S (length (procs k0))) (procs k0)) as [q ps]. exact D.
-Qed.
-
-Lemma finish_groups c k0 v ow h : groups (finish c k0 v ow h) = map pg (procs k0).
-Proof. unfold groups, finish, end_of_line; cbn. apply poll_pg. Qed.
-
-Lemma settle_groups c fuel : forall s, groups (settle c fuel s) = groups s.
+Lemma settle_groups c fuel : forall s, groups (settle c fuel s) = groups s /\ rest_of (md (settle c fuel s)) = rest_of (md s).
 Proof.
   induction fuel as [|f IH]; intro s; cbn [settle]; auto.
-  destruct (md s) as [|g pids w v]; auto.
+  destruct (md s) as [| |g pids w v rest] eqn:M; try (rewrite M; auto).
   destruct (next_status (procs (k s))) as [[e ps]|] eqn:N.
   - pose proof (wait_body_procs (set_procs (k s) ps) g pids w e) as WB.
     destruct (wait_body (set_procs (k s) ps) g pids w e) as [k' w']. cbn in WB.
     assert (E : map pg (procs k') = groups s).
-    { rewrite WB. unfold groups. eapply next_status_pg; eauto. }
+    { rewrite WB. unfold groups. apply stat_pg. eapply next_status_stat; eauto. }
     destruct (negb (is_cont e) && (length pids <=? length w')%nat).
-    + rewrite finish_groups. exact E.
-    + rewrite IH. exact E.
-  - destruct (all_gone (procs (k s))); auto. apply finish_groups.
+    + rewrite finish_groups, finish_rest. auto.
+    + destruct (IH (mkst k' (Waiting g pids w' v rest) (owner s) (smask s) (gh s) (wevs s ++ [e]))) as [A B].
+      rewrite A, B. auto.
+  - destruct (all_gone (procs (k s))); [rewrite finish_groups, finish_rest | rewrite M]; auto.
 Qed.
 
-Lemma enter_wait_groups c k0 g pids v ow h : groups (enter_wait c k0 g pids v ow h) = map pg (procs k0).
+Lemma enter_wait_groups c k0 g pids v ow m h rest :
+  groups (enter_wait c k0 g pids v ow m h rest) = map pg (procs k0) /\
+  rest_of (md (enter_wait c k0 g pids v ow m h rest)) = rest.
 Proof.
-  unfold enter_wait. destruct pids; [apply finish_groups|].
-  unfold settle_all. rewrite settle_groups. reflexivity.
+  unfold enter_wait. destruct pids; [rewrite finish_groups, finish_rest; auto|].
+  unfold settle_all. destruct (settle_groups c (S (length (procs k0)))
+    (mkst k0 (Waiting g (z :: pids) [] v rest) ow m h [])) as [A B]. cbn in A, B. auto.
 Qed.
 
-Lemma eol_groups k0 ow h : groups (end_of_line k0 ow h) = map pg (procs k0).
-Proof. unfold groups, end_of_line; cbn. apply poll_pg. Qed.
-
-(** the groups a launch creates: every stage in the group of stage 0 *)
-Definition new_groups (pids : list Z) : list (Z * Z) := map (fun p => (p, hd 0 pids)) pids.
-
-Definition added (s : st) (a : action) : list (Z * Z) :=
-  match a, md s with
-  | ALaunch pids _, AtPrompt => new_groups pids
-  | _, _ => []
-  end.
-
-(** no action ever moves a process to another group; only a launch typed at
-    the prompt adds processes, and exactly those of [new_groups] *)
-Theorem step_groups c s a : groups (step c s a) = groups s ++ added s a.
+(** one command: exactly the processes of a launch are added, nobody moves *)
+Lemma exec_groups c s x rest :
+  groups (exec c s x rest) = groups s ++ newg x /\ rest_of (md (exec c s x rest)) = rest.
 Proof.
-  assert (KN : forall f, (forall ps, map pg (f ps) = map pg ps) -> groups (kernel c s f) = groups s).
-  { intros f F. unfold kernel, settle_all. rewrite settle_groups. unfold groups; cbn. apply F. }
-  assert (CL : groups (clear s) = groups s) by reflexivity.
-  unfold added.
-  destruct a; cbn [step]; unfold typed, key; destruct (md s) eqn:M;
-    rewrite ?app_nil_r; auto;
-    try (apply KN; intro; first [apply on_group_pg; apply deliver_pg | apply on_pid_pg; first [apply deliver_pg | apply do_exit_pg]]);
-    try (rewrite eol_groups; reflexivity).
-  - unfold launch, new_groups. destruct pids as [|p0 rest]; [rewrite app_nil_r; reflexivity|].
-    destruct bg; [rewrite eol_groups | rewrite enter_wait_groups]; cbn [procs];
-      rewrite map_app; unfold stages; rewrite map_map; reflexivity.
-  - unfold do_fg. destruct (ctab (quiet (k s))); [rewrite eol_groups; reflexivity|].
-    destruct (find_job _ arg pick) as [j0|]; [|rewrite eol_groups; reflexivity].
-    match goal with |- context [if ?b then _ else _] => destruct b end.
-    + rewrite enter_wait_groups. cbn [procs]. apply on_group_pg, deliver_pg.
-    + rewrite eol_groups. reflexivity.
-  - unfold do_bg. destruct (ctab (quiet (k s))); [rewrite eol_groups; reflexivity|].
-    destruct (find_job _ arg pick) as [j0|]; [|rewrite eol_groups; reflexivity].
-    destruct (jst j0); rewrite eol_groups; cbn [procs]; apply on_group_pg, deliver_pg.
-  - unfold do_jobs. destruct (ctab (quiet (k s))); rewrite eol_groups; cbn [procs say quiet]; auto.
-    unfold say; cbn [procs]. rewrite poll_pg. reflexivity.
+  destruct x; cbn [exec newg]; rewrite ?app_nil_r.
+  - unfold launch, new_groups. destruct pids as [|p0 r]; [cbn; rewrite app_nil_r; auto|].
+    destruct (if c_hasterm c && c_isatty c && negb bg then _ else _) as [[tg ow] m].
+    assert (E : map pg (procs (k s) ++ stages p0 (smask s) (p0 :: r)) = groups s ++ map (fun p => (p, hd 0 (p0 :: r))) (p0 :: r)).
+    { rewrite map_app. unfold stages. rewrite map_map. reflexivity. }
+    destruct bg.
+    + split; [|reflexivity]. rewrite next_groups. exact E.
+    + destruct (enter_wait_groups c (mkcore (procs (k s) ++ stages p0 (smask s) (p0 :: r))
+        (if c_isatty c then mksh (Jobs.launch (ctab (k s)) p0 (p0 :: r) false) (mp (shl (k s))) else shl (k s)) (outs (k s)))
+        p0 (p0 :: r) (VLaunch tg) ow m (if c_isatty c then gh s ++ [Launch p0 (p0 :: r) false] else gh s) rest) as [A B].
+      rewrite A, B. cbn [procs]. auto.
+  - unfold do_fg. destruct (ctab (k s)); [auto|].
+    destruct (find_job _ arg pick) as [j0|]; [|auto].
+    destruct (give_terminal_to _ (jgid j0) (owner s) (smask s)) as [[gv ow] m]. destruct gv; [|auto].
+    match goal with |- context [enter_wait c ?kk ?g ?p ?v ?o ?mm ?h ?r] =>
+      destruct (enter_wait_groups c kk g p v o mm h r) as [A B] end.
+    rewrite A, B. cbn [procs]. split; auto. apply stat_pg. apply on_group_stat. apply deliver_stat.
+  - unfold do_bg. destruct (ctab (k s)); [auto|].
+    destruct (find_job _ arg pick) as [j0|]; [|auto].
+    destruct (jst j0); (split; [|reflexivity]); rewrite next_groups; cbn [procs]; apply stat_pg, on_group_stat, deliver_stat.
+  - unfold do_jobs. destruct (ctab (k s)); [auto|]. split; [|reflexivity].
+    rewrite next_groups. unfold say; cbn [procs]. apply stat_pg, poll_stat.
+  - auto.
 Qed.
 
-(** every process belongs to a launch of the session and sits in the group of its first stage *)
-Definition led (acts : list action) (q : Z * Z) : Prop :=
-  exists pids bg, In (ALaunch pids bg) acts /\ In (fst q) pids /\ snd q = hd 0 pids.
+Lemma ledc_mono l l' q : incl l l' -> ledc l q -> ledc l' q.
+Proof. intros I [pids [bg [A B]]]. exists pids, bg. split; auto. Qed.
 
-Lemma added_led s a : Forall (led [a]) (added s a).
+Lemma newg_led x : Forall (ledc [x]) (newg x).
 Proof.
-  unfold added. destruct a; try constructor. destruct (md s); [|constructor].
-  unfold new_groups. apply Forall_forall. intros q I. apply in_map_iff in I as [p [E I]]. subst q.
-  exists pids, bg. cbn. auto.
+  destruct x; cbn; try constructor. unfold new_groups. apply Forall_forall. intros q I.
+  apply in_map_iff in I as [p [E I]]. subst q. exists pids, bg. cbn. auto.
 Qed.
 
-Lemma led_mono a b q : led a q -> led (b ++ a) q /\ led (a ++ b) q.
+(** the rest of a line: only processes of its launches are added; what is left to run is a part of it *)
+Lemma drive_groups c fuel : forall s, exists ex,
+  groups (drive c fuel s) = groups s ++ ex /\ Forall (ledc (rest_of (md s))) ex /\
+  incl (rest_of (md (drive c fuel s))) (rest_of (md s)).
 Proof.
-  intros [pids [bg [I R]]]. split; exists pids, bg; split; auto; apply in_or_app; auto.
+  induction fuel as [|f IH]; intro s; cbn [drive].
+  - exists []. rewrite app_nil_r. repeat split; auto. apply incl_refl.
+  - destruct (md s) as [|[|x r]| ] eqn:M; try (exists []; rewrite app_nil_r, M; repeat split; auto; apply incl_refl).
+    + exists []. rewrite app_nil_r. repeat split; auto.
+      * unfold groups, end_of_line; cbn. apply stat_pg, poll_stat.
+      * cbn. apply incl_refl.
+    + destruct (exec_groups c s x r) as [A B]. destruct (IH (exec c s x r)) as [ex [E1 [E2 E3]]].
+      exists (newg x ++ ex). rewrite E1, A, app_assoc. repeat split; auto.
+      * apply Forall_app. split.
+        -- eapply Forall_impl; [|apply newg_led]. intros q L. eapply ledc_mono; [|exact L].
+           intros y [Y|[]]. subst. cbn. auto.
+        -- rewrite B in E2. eapply Forall_impl; [|exact E2]. intros q L. eapply ledc_mono; [|exact L].
+           cbn. apply incl_tl, incl_refl.
+      * rewrite B in E3. cbn. apply incl_tl. exact E3.
 Qed.
+
+Definition line_of (a : action) : list cmd := match cmds_of a with Some l => l | None => [] end.
+
+(** no action ever moves a process to another group; processes are only added,
+    and only those of launches of the line being run *)
+Theorem step_groups c s a : exists ex,
+  groups (step c s a) = groups s ++ ex /\ Forall (ledc (rest_of (md s) ++ line_of a)) ex /\
+  incl (rest_of (md (step c s a))) (rest_of (md s) ++ line_of a).
+Proof.
+  assert (KN : forall f, (forall ps, map stat (f ps) = map stat ps) -> exists ex,
+    groups (kernel c s f) = groups s ++ ex /\ Forall (ledc (rest_of (md s))) ex /\
+    incl (rest_of (md (kernel c s f))) (rest_of (md s))).
+  { intros f F. unfold kernel, drive_all, settle_all.
+    match goal with |- context [drive c ?fu (settle c ?fs ?s0)] =>
+      destruct (settle_groups c fs s0) as [A B]; destruct (drive_groups c fu (settle c fs s0)) as [ex [E1 [E2 E3]]] end.
+    exists ex. rewrite E1, A. rewrite B in E2. cbn [md] in E2.
+    split; [|split; [exact E2 | eapply incl_tran; [exact E3 | rewrite B; apply incl_refl]]].
+    f_equal. unfold groups; cbn. apply stat_pg, F. }
+  assert (LIFT : forall st', (exists ex, groups st' = groups s ++ ex /\ Forall (ledc (rest_of (md s))) ex /\
+                                incl (rest_of (md st')) (rest_of (md s))) ->
+                 exists ex, groups st' = groups s ++ ex /\ Forall (ledc (rest_of (md s) ++ line_of a)) ex /\
+                                incl (rest_of (md st')) (rest_of (md s) ++ line_of a)).
+  { intros st' [ex [A [B C]]]. exists ex. repeat split; auto.
+    - eapply Forall_impl; [|exact B]. intros q L. eapply ledc_mono; [|exact L]. apply incl_appl, incl_refl.
+    - eapply incl_tran; [exact C|]. apply incl_appl, incl_refl. }
+  assert (ID : exists ex, groups s = groups s ++ ex /\ Forall (ledc (rest_of (md s))) ex /\ incl (rest_of (md s)) (rest_of (md s))).
+  { exists []. rewrite app_nil_r. repeat split; auto. apply incl_refl. }
+  assert (CL : exists ex, groups (clear s) = groups s ++ ex /\ Forall (ledc (rest_of (md s) ++ line_of a)) ex /\
+                          incl (rest_of (md (clear s))) (rest_of (md s) ++ line_of a)) by (apply LIFT; exact ID).
+  assert (KL : forall f, (forall ps, map stat (f ps) = map stat ps) -> exists ex,
+    groups (kernel c s f) = groups s ++ ex /\ Forall (ledc (rest_of (md s) ++ line_of a)) ex /\
+    incl (rest_of (md (kernel c s f))) (rest_of (md s) ++ line_of a)) by (intros f F; apply LIFT, KN, F).
+  assert (SL : exists ex, groups s = groups s ++ ex /\ Forall (ledc (rest_of (md s) ++ line_of a)) ex /\
+                          incl (rest_of (md s)) (rest_of (md s) ++ line_of a)) by (apply LIFT; exact ID).
+  clear KN LIFT ID.
+  unfold step. destruct (cmds_of a) as [l|] eqn:CM.
+  - assert (LA : line_of a = l) by (unfold line_of; rewrite CM; reflexivity).
+    unfold typed_line. destruct (md s) eqn:M; try exact CL.
+    unfold drive_all.
+    match goal with |- context [drive c ?fu ?s0] => destruct (drive_groups c fu s0) as [ex [E1 [E2 E3]]] end.
+    cbn [md rest_of] in E2, E3. exists ex. rewrite LA. cbn [app]. split; [exact E1 | split; [exact E2 | exact E3]].
+  - destruct a; try discriminate CM; try exact SL.
+    + unfold key. destruct (md s) eqn:M; try exact CL; apply KL; intro; apply on_group_stat; apply deliver_stat.
+    + unfold key. destruct (md s) eqn:M; try exact CL; apply KL; intro; apply on_group_stat; apply deliver_stat.
+    + apply KL. intro. apply on_pid_stat. apply do_exit_stat.
+    + apply KL. intro. apply on_pid_stat. apply deliver_stat.
+Qed.
+
+(** every process belongs to a launch typed in the session and sits in the group of its first stage *)
+Definition typed_cmds (acts : list action) : list cmd := concat (map line_of acts).
+Definition led (acts : list action) (q : Z * Z) : Prop := ledc (typed_cmds acts) q.
+
+Lemma typed_snoc acts a : typed_cmds (acts ++ [a]) = typed_cmds acts ++ line_of a.
+Proof. unfold typed_cmds. rewrite map_app, concat_app. cbn. rewrite app_nil_r. reflexivity. Qed.
 
 Lemma fold_groups c acts : forall s done,
-  Forall (led done) (groups s) ->
+  Forall (led done) (groups s) -> incl (rest_of (md s)) (typed_cmds done) ->
   Forall (led (done ++ acts)) (groups (fold_left (step c) acts s)).
 Proof.
-  induction acts as [|a r IH]; intros s done H; cbn.
+  induction acts as [|a r IH]; intros s done H R; cbn.
   - rewrite app_nil_r. exact H.
   - replace (done ++ a :: r) with ((done ++ [a]) ++ r) by (rewrite <- app_assoc; reflexivity).
-    apply IH; auto. rewrite step_groups. apply Forall_app. split.
-    + eapply Forall_impl; [|exact H]. intros q L. apply (led_mono done [a] q L).
-    + eapply Forall_impl; [|apply added_led]. intros q L. apply (led_mono [a] done q L).
+    destruct (step_groups c s a) as [ex [E1 [E2 E3]]].
+    assert (I : incl (rest_of (md s) ++ line_of a) (typed_cmds (done ++ [a]))).
+    { rewrite typed_snoc. apply incl_app; [apply incl_appl; exact R | apply incl_appr, incl_refl]. }
+    apply IH.
+    + rewrite E1. apply Forall_app. split.
+      * eapply Forall_impl; [|exact H]. intros q L. unfold led in *. eapply ledc_mono; [|exact L].
+        rewrite typed_snoc. apply incl_appl, incl_refl.
+      * eapply Forall_impl; [|exact E2]. intros q L. unfold led. eapply ledc_mono; [exact I | exact L].
+    + eapply incl_tran; [exact E3 | exact I].
 Qed.
 
 Theorem one_group c acts : Forall (led acts) (groups (run c acts)).
 Proof.
-  change acts with ([] ++ acts) at 1. apply fold_groups; auto. constructor.
+  change acts with ([] ++ acts) at 1. apply fold_groups; [constructor | intros x []].
 Qed.
